@@ -185,7 +185,15 @@ pub fn ident_line(ln: &Value, rep: &mut Report, _known: &Known) {
     let b = crate::core::catch(|| Identifier::between(Some(&lo), Some(&hi), m));
     match b {
         Ok(b) => {
-            chk(rep, &["C14", "C13"], "between", ident_json(&to_tree(&b), &mj), ln["btw"].clone());
+            // the exact identifier is the allocation strategy (the spec's transcription of between): a
+            // difference is drift; the PROPERTY (strictly inside, tagged with the marker) is judged below
+            let bj = ident_json(&to_tree(&b), &mj);
+            if bj != ln["btw"] {
+                rep.add("drift", &[], "ident", "between", bj.clone(), Value::Null, ln["btw"].clone(), &h, Value::Null);
+            }
+            if c != 0 {
+                chk(rep, &["C14"], "between.tagged", bj.as_array().and_then(|a| a.last()).map(|n| n[1].clone()).unwrap_or(Value::Null), json!(m));
+            }
             // the property itself, evaluated with the real order
             if c != 0 {
                 let (l, g) = if c < 0 { (&lo, &hi) } else { (&hi, &lo) };
@@ -195,13 +203,20 @@ pub fn ident_line(ln: &Value, rep: &mut Report, _known: &Known) {
         Err(e) => chk(rep, &["C14"], "between.panic", json!(e), json!("no panic")),
     }
     let a = Identifier::between(Some(&lo), None, m);
-    chk(rep, &["C14", "C13"], "between.after", ident_json(&to_tree(&a), &mj), ln["after"].clone());
+    if ident_json(&to_tree(&a), &mj) != ln["after"] {
+        rep.add("drift", &[], "ident", "between.after", ident_json(&to_tree(&a), &mj), Value::Null, ln["after"].clone(), &h, Value::Null);
+    }
     chk(rep, &["C14", "C13"], "between.after.beyond", json!(lo < a), json!(true));
     let bf = Identifier::between(None, Some(&hi), m);
-    chk(rep, &["C14", "C13"], "between.before", ident_json(&to_tree(&bf), &mj), ln["before"].clone());
+    if ident_json(&to_tree(&bf), &mj) != ln["before"] {
+        rep.add("drift", &[], "ident", "between.before", ident_json(&to_tree(&bf), &mj), Value::Null, ln["before"].clone(), &h, Value::Null);
+    }
     chk(rep, &["C14", "C13"], "between.before.beyond", json!(bf < hi), json!(true));
     let nn: Identifier<u8> = Identifier::between(None, None, m);
-    chk(rep, &["C14"], "between.none", ident_json(&to_tree(&nn), &mj), ln["none"].clone());
+    if ident_json(&to_tree(&nn), &mj) != ln["none"] {
+        rep.add("drift", &[], "ident", "between.none", ident_json(&to_tree(&nn), &mj), Value::Null, ln["none"].clone(), &h, Value::Null);
+    }
+    chk(rep, &["C14"], "between.none.tagged", json!(*nn.value()), json!(m));
     // value() is the marker of the last node
     chk(rep, &["C14"], "value", json!(*a.value()), json!(m));
     let lo_len = ln["lo"].as_array().unwrap().len();
